@@ -114,7 +114,15 @@ def scripts(ln, nn, kind, seed):
         return E["s"].predict() if cf else E["s"].predict([list(r) for r in q])
 
     def s_pfit():
-        E["s"].partial_fit([2, 1], [1, 0]) if cf else E["s"].partial_fit([2, 1], [1, 0], [list(x[1]), list(x[2])])
+        if tree:
+            # an arm added after fit gets its tree at its first data; with tied feature columns the split is decided
+            # by the tree's random state alone, which must come from the bandit's seed, not from process-wide state
+            E["s"].add_arm(3)
+            E["s"].partial_fit([3, 3, 3, 1], [1, 0, 1, 0], [list(XT[3]), list(XT[0]), list(XT[2]), list(XT[1])])
+        elif cf:
+            E["s"].partial_fit([2, 1], [1, 0])
+        else:
+            E["s"].partial_fit([2, 1], [1, 0], [list(x[1]), list(x[2])])
 
     def s_expect():
         return E["s"].predict_expectations() if cf else E["s"].predict_expectations([list(r) for r in q])
@@ -125,6 +133,9 @@ def scripts(ln, nn, kind, seed):
     def i_fit():
         d, r = [2, 2, 1, 1, 2, 1], [1, 0, 1, 1, 1, 0]
         E["i"].fit(d, r) if icf else E["i"].fit(d, r, [list(v) for v in reversed(ix)])
+        if kind == "tree" or tree:
+            E["i"].add_arm(7)
+            E["i"].partial_fit([7, 7, 7], [0, 1, 1], [list(XT[1]), list(XT[3]), list(XT[0])])
 
     def i_predict():
         E["i"].predict() if icf else E["i"].predict([list(v) for v in ix[:2]])
@@ -205,7 +216,7 @@ def str_script_digests(seed):
             res.append(ops.call(m, "predict", None if cf else q))
             ops.apply(m, ["add_arm", "d"])
             ops.apply(m, ["remove_arm", "b"])
-            ops.apply(m, ["partial_fit", ["d", "a"], [1, 0], None if cf else [x[1], x[2]]])
+            ops.apply(m, ["partial_fit", ["d", "d", "d", "a"], [1, 0, 1, 0], None if cf else [x[3], x[0], x[2], x[1]]])
             if nn == "none":
                 # 'e' is cold and exactly as far from 'a' as from 'c' and 'd' (identical feature vectors): which
                 # trained arm it is initialised from must not depend on set / dict iteration order
